@@ -2,9 +2,11 @@ package server
 
 import (
 	"context"
+	"errors"
 	"fmt"
 	"io"
 	"log/slog"
+	"math"
 	"net/http"
 	"strconv"
 	"strings"
@@ -141,6 +143,26 @@ func generateContentRangeValue(br storage.ByteRange, objectSize int64) string {
 
 var errInvalidByteRange error = fmt.Errorf("invalid byte range")
 
+// parseRangePosition parses a byte position or suffix length of a Range header.
+// RFC 7233 positions are 1*DIGIT without an upper bound: a value that does not
+// fit into an int64 saturates at math.MaxInt64 and is later clamped to the
+// object size like any other position beyond the end.
+func parseRangePosition(s string) (int64, error) {
+	for i := 0; i < len(s); i++ {
+		if s[i] < '0' || s[i] > '9' {
+			return 0, errInvalidByteRange
+		}
+	}
+	value, err := strconv.ParseInt(s, 10, 64)
+	if err != nil {
+		if errors.Is(err, strconv.ErrRange) {
+			return math.MaxInt64, nil
+		}
+		return 0, errInvalidByteRange
+	}
+	return value, nil
+}
+
 // parseRangeHeader parses HTTP Range header and returns storage.ByteRange array.
 // It converts HTTP ranges (inclusive end) to storage ranges (exclusive end) automatically.
 // Suffix ranges (bytes=-N) are passed through as-is to be resolved by the storage layer.
@@ -167,16 +189,16 @@ func parseRangeHeader(rangeHeader string) ([]storage.ByteRange, error) {
 		var end *int64
 
 		if byteSplit[0] != "" {
-			startByte, err := strconv.ParseInt(byteSplit[0], 10, 64)
+			startByte, err := parseRangePosition(byteSplit[0])
 			if err != nil {
-				return nil, errInvalidByteRange
+				return nil, err
 			}
 			start = &startByte
 		}
 		if byteSplit[1] != "" {
-			endByte, err := strconv.ParseInt(byteSplit[1], 10, 64)
+			endByte, err := parseRangePosition(byteSplit[1])
 			if err != nil {
-				return nil, errInvalidByteRange
+				return nil, err
 			}
 			end = &endByte
 		}
@@ -189,9 +211,13 @@ func parseRangeHeader(rangeHeader string) ([]storage.ByteRange, error) {
 			ranges = append(ranges, storage.ByteRange{Start: nil, End: end})
 		} else if start != nil {
 			// Normal range: convert inclusive end to exclusive end
+			// (math.MaxInt64 cannot be incremented; it is clamped to the object size anyway)
 			var exclusiveEnd *int64
 			if end != nil {
-				excEnd := *end + 1
+				excEnd := *end
+				if excEnd < math.MaxInt64 {
+					excEnd++
+				}
 				exclusiveEnd = &excEnd
 			}
 			ranges = append(ranges, storage.ByteRange{Start: start, End: exclusiveEnd})
